@@ -751,9 +751,46 @@ fn builder_case(ch: &mut Choices<'_>, st: &mut Stats) -> CaseResult {
     let mut rb = wirefilter::SchemeBuilder::new();
     let mut log: Vec<Value> = Vec::new();
     let types = [MType::Int, MType::Bytes, MType::Bool, MType::Ip, MType::array(MType::Int), MType::map(MType::Bytes)];
+    let mut used: Vec<MType> = Vec::new();
     for _ in 0..n {
         let name: &[u8] = *ch.pick(BUILDER_NAMES);
-        let t = ch.pick(&types).clone();
+        // mostly the shallow types; now and then a type nested up to the deepest one a type descriptor can hold (32 layers)
+        let t = if ch.chance(1, 5) {
+            let layers = *ch.pick(&[2usize, 3, 4, 8, 16, 30, 31, 32]);
+            let mut t = ch.pick(&types[..4]).clone();
+            for _ in 0..layers {
+                t = if ch.boolean() { MType::array(t) } else { MType::map(t) };
+            }
+            st.class(&format!("builder:type-with-{layers}-layers"));
+            t
+        } else {
+            ch.pick(&types).clone()
+        };
+        used.push(t.clone());
+        if ch.chance(1, 4) {
+            // a list for that type (always / never), through both builders
+            let always = ch.boolean();
+            log.push(json!({"add_list": if always { "always" } else { "never" }, "type": t.show()}));
+            let case = json!({"registrations_in_order": log});
+            st.eval();
+            ffi::wirefilter_clear_last_error();
+            let c_ok = if always { ffi::wirefilter_add_always_list_to_scheme(&mut cb, ctype(&t)) } else { ffi::wirefilter_add_never_list_to_scheme(&mut cb, ctype(&t)) };
+            let rust = if always { rb.add_list(t.to_engine(), wirefilter::AlwaysList {}) } else { rb.add_list(t.to_engine(), wirefilter::NeverList {}) }.map_err(|e| e.to_string());
+            match (&rust, c_ok) {
+                (Ok(()), true) => {}
+                (Err(e), false) => {
+                    let got = check_last_error("wirefilter_add_*_list_to_scheme", &case)?;
+                    if got != substitute_nul(e) {
+                        return Err(Fail::new("builder-error-text-differs", format!("C last error {:?}, Rust error {:?}", String::from_utf8_lossy(&got), e), case));
+                    }
+                    st.class("builder:list-refused-on-both-sides");
+                }
+                (r, c) => {
+                    return Err(Fail::new("builder-outcome-differs", format!("wirefilter_add_*_list_to_scheme returned {c}, the Rust builder {r:?}"), case));
+                }
+            }
+            continue;
+        }
         log.push(json!({"add_type_field": show_bytes(name), "type": t.show()}));
         let case = json!({"registrations_in_order": log});
         st.eval();
@@ -800,6 +837,17 @@ fn builder_case(ch: &mut Choices<'_>, st: &mut Stats) -> CaseResult {
             if a != b {
                 return Err(Fail::new("builder-lookup-differs", format!("get_field({sname:?}): C-built scheme {a:?}, Rust-built scheme {b:?}"), case));
             }
+        }
+    }
+    for t in &used {
+        let (a, b) = (crs.get_list(&t.to_engine()).is_some(), rs.get_list(&t.to_engine()).is_some());
+        if a != b {
+            return Err(Fail::new("builder-lookup-differs", format!("get_list({}): C-built scheme {a}, Rust-built scheme {b}", t.show()), case));
+        }
+        let tj = take_string(ffi::wirefilter_serialize_type_to_json(ctype(t))).map_err(|e| Fail::new("c-api-serialize-type", format!("{e} for {}", t.show()), case.clone()))?;
+        let want = serde_json::to_string(&t.to_engine()).unwrap();
+        if tj != want {
+            return Err(Fail::new("type-json-differs", format!("wirefilter_serialize_type_to_json: {tj}\nserde_json::to_string(&Type): {want}"), case));
         }
     }
     if rs.field_count() >= 2 {
